@@ -50,7 +50,11 @@ def analyse(prog, vec, mode, n, p, st, viols):
         return
     st["instances"] += 1
     try:
-        sols, undec, s = W.exact(inst.cons, inst.nvars, inst.fixed, p)
+        if mode == "reuse":
+            rel = {v for w in inst.wires for v in w if v != 0}
+            sols, undec, s = W.exact(inst.cons, inst.nvars, inst.fixed, p, relevant=rel, honest=inst.assignment)
+        else:
+            sols, undec, s = W.exact(inst.cons, inst.nvars, inst.fixed, p)
     except W.Capped:
         st["capped"] += 1
         return
@@ -75,6 +79,8 @@ def analyse(prog, vec, mode, n, p, st, viols):
             continue
         sig = {"klass": f["klass"], "root_fn": f["root"][1], "root_line": f["root"][2],
                "attrib": attribute(f, inst)}
+        if mode != "plain":
+            sig["history"] = mode
         what = ("%s on %s (bitlength %d, field %d bits): the constraints admit a witness in which the "
                 "operands keep their values but result wire #%d %s; first deviating witness variable v%s "
                 "created at %s:%s `%s`"
@@ -98,6 +104,8 @@ def _task(t):
     for vec in E.input_vectors(prog, vals):
         if kind == "real":
             analyse(prog, vec, "plain", n, p, st, viols)
+        elif kind == "reuse":
+            analyse(prog, vec, "reuse", n, p, st, viols)
         else:
             inst = e2.build(prog, vec, "plain", n, p)
             if inst.status != "ok" or not inst.wires:
@@ -181,6 +189,11 @@ def run(ctx):
     for n, p in real:
         for prog in progs:
             tasks.append(("real", prog, n, p, E.D(n)))
+    # history-dependent soundness: same call on the same operand objects after an untaken branch
+    for prog in progs:
+        tasks.append(("reuse", prog, 2, REC.BN128, E.D(2)))
+        if ctx.thorough:
+            tasks.append(("reuse", prog, 3, REC.BLS12_381, E.D(3)))
     for prog in d2:
         tasks.append(("real", prog, 2, REC.BN128, E.D(2) if ctx.thorough else list(range(-3, 4))))
         if ctx.thorough:
